@@ -293,19 +293,22 @@ operations (what NumPy ufuncs on nodes create) or a constant operand. -/
 
 inductive Fn where
   | add | sub | mul                  -- element-wise ufuncs (`node + node`, `node * 2`, …)
+  | gt                               -- element-wise comparison `node > x` (1 / 0)
+  | sel                              -- `node[mask_node]`: `ComputationNode.__getitem__` with a boolean node (not length-preserving)
   | sum                              -- `np.sum(buffer)`: the inner node of `np.sum(node)`
   | sumN                             -- `sum_and_n(buffer)`: the inner node of `np.mean(node)`
   | hist (edges : List Int)          -- `np.histogram(buffer, bins=edges)[0]`: inner node of `np.histogram(node, edges)`
   deriving DecidableEq, Repr
 
 def Fn.elementwise : Fn → Bool
-  | .add | .sub | .mul => true
+  | .add | .sub | .mul | .gt => true
   | _ => false
 
 def Fn.app : Fn → Int → Int → Int
   | .add, a, b => a + b
   | .sub, a, b => a - b
   | .mul, a, b => a * b
+  | .gt, a, b => if a > b then 1 else 0
   | _, a, _ => a
 
 inductive Arg where
@@ -365,10 +368,19 @@ def applyRed (f : Fn) (x : List Int) : List Int :=
   | .hist e => (histogram e x).map Int.ofNat
   | _ => x
 
+/-- boolean-mask indexing of one buffer by another (NumPy external): the entries whose mask entry is non-zero -/
+def applySel (x m : List Int) : List Int :=
+  (x.zip m).filterMap (fun p => if p.2 ≠ 0 then some p.1 else none)
+
 /-- the function of a `ComputationNode` applied to its evaluated arguments (unary reductions ignore
 the second operand slot, which the model fills with a constant) -/
 def applyFn (f : Fn) (a b : List Int ⊕ Int) : List Int :=
   if f.elementwise then applyEw f a b
+  else if f = Fn.sel then
+    match a, b with
+    | .inl x, .inl m => applySel x m
+    | .inl x, .inr c => if c ≠ 0 then x else []
+    | .inr c, _ => [c]
   else match a with
     | .inl x => applyRed f x
     | .inr c => applyRed f [c]
